@@ -153,8 +153,8 @@ def check_once(contract_cls, fn, args: dict, clauses=None):
             failures.append(("raises", f"unexpected {type(raised).__name__}: {raised}"))
         return ("fail" if failures else "ok"), failures
     for name in dir(contract_cls):
-        if not name.startswith("ensures"):
-            continue
+        if not name.startswith(("ensures", "native_")):
+            continue  # native_*: clauses outside the symbolic encoding's reach (object identity), checked here only
         if clauses is not None and name not in clauses:
             continue
         try:
@@ -178,7 +178,8 @@ def search(spec_module: str, contract_name: str, n: int, seed: int, clauses=None
     fn = resolve(cc.__target__)
     gens = importlib.import_module(f"natives.{spec_module}_gen")
     gen = getattr(gens, f"gen_{contract_name}")
-    out = {"evaluations": 0, "skipped": 0, "failures": [], "distinct": 0}
+    out = {"evaluations": 0, "skipped": 0, "failures": [], "distinct": 0,
+           "native_only_clauses": [n_ for n_ in dir(cc) if n_.startswith("native_")]}
     seen = set()
     for i in range(n):
         rng = random.Random(f"{seed}:{contract_name}:{i}")
